@@ -130,7 +130,7 @@ def name_pool(tier):
     return out
 
 
-MALFORMED = ['x <= 5', 'q3(k-1) = 3', 'q2 q1 = 4', 'q\tr = 2', 'q9 = y(k-1) + 2', 'q8 = 2*y(k-1)', '= 77.', 'q7 = w(t-1) - y', 'q6 = y(k-1) + w(k-1)', 'q5 = y(k-1)(k-1)', 'q4 = (y)(k-1)']
+MALFORMED = ['x <= 5', 'q3(k-1) = 3', 'q2 q1 = 4', 'q\tr = 2', 'q(0)z = 1.', 'qq(0)(0) = 3', 'q9 = y(k-1) + 2', 'q8 = 2*y(k-1)', '= 77.', 'q7 = w(t-1) - y', 'q6 = y(k-1) + w(k-1)', 'q5 = y(k-1)(k-1)', 'q4 = (y)(k-1)']
 
 
 def make_block(rnd, rhs, sp, lf, with_t, marker, xn='x', ln='L'):
@@ -230,7 +230,7 @@ def lines_chunk(items):
         for mal in MALFORMED:
             if mal in text and mal not in msg:
                 problems.append('malformed line %r is not reported in the returned message' % (mal,))
-        stray = [v for v in [x for x, _ in p.Endogenous] + [x for x, _ in p.Lagged] + [x for x, _ in p.Exogenous] + list(p.InitialConditions) if v in ('q9', 'q8', 'q7', 'q6', 'q5', 'q4', '') or not v.replace('_', 'a').isalnum()]
+        stray = [v for v in [x for x, _ in p.Endogenous] + [x for x, _ in p.Lagged] + [x for x, _ in p.Exogenous] + list(p.InitialConditions) if v in ('q9', 'q8', 'q7', 'q6', 'q5', 'q4', '') or not v.replace('_', 'a').isalnum() or v in ('qz', 'qq')]
         if stray:
             problems.append('malformed lines were read as definitions of %r' % (stray,))
         if p.Decoration:
